@@ -292,8 +292,8 @@ def worker_main(wi, logpath, db, plan, go_r, go_w, ready_w):
         os.write(ready_w, b"x")
         os.read(go_r, 1)          # released when the parent closes its write end
         t_go = mono()
-        while mono() - t_go < plan["offset"]:
-            pass
+        if plan["offset"] > 0:
+            time.sleep(plan["offset"])
     emit("start", mono(), os.getpid())
     from wikitextprocessor import Wtp
     ctx = None
